@@ -21,6 +21,7 @@ import (
 	"github.com/zclconf/go-cty/cty/function/stdlib"
 	"pgregory.net/rapid"
 
+	"verif/harness/gen"
 	"verif/harness/spec"
 )
 
@@ -52,6 +53,23 @@ var (
 func register(e Entry) {
 	if _, dup := byName[e.Name]; dup {
 		panic("stdreg: duplicate function " + e.Name)
+	}
+	if e.Fn.VarParam() != nil && e.Args != nil && e.Name != "setproduct" { // (the cost of setproduct is exponential in its arguments)
+		// variadic functions: now and then a LONG argument list (9..17
+		// arguments), made by repeating drawn variadic arguments, so that code
+		// gated by the number of arguments is reached
+		inner := e.Args
+		nfixed := len(e.Fn.Params())
+		e.Args = func(t *rapid.T) []spec.V {
+			args := inner(t)
+			if len(args) > nfixed && rapid.IntRange(0, 39).Draw(t, "longtail") == 20 {
+				want := nfixed + rapid.SampledFrom(gen.LongSizes[4:8]).Draw(t, "longn")
+				for len(args) < want {
+					args = append(args, args[rapid.IntRange(nfixed, len(args)-1).Draw(t, "repeat")].Clone())
+				}
+			}
+			return args
+		}
 	}
 	byName[e.Name] = len(entries)
 	entries = append(entries, e)
